@@ -189,6 +189,29 @@ func runC10(c *Ctx, r *Report) {
 	optionForwarding(c, r, "R-C10.7", append(loaderFetchSpecs(), constructorLoaderSpecs()...), "Length", "Exclude", "ShouldExclude")
 	r.Doc("R-C10.8", "the outcome does not depend on the fetch concurrency: no configuration of slots and queued hashes stalls the dispatcher (slot release before the mutex, worker accounting on every path)")
 	importRules(c, r, "C11", []string{"R-C11.1", "R-C11.6"}, "R-C10.8")
+	r.Doc("R-C10.9", "the loaders only sort slices they own: a list that may share its backing array with a caller-supplied slice (append(param, …)) is never sorted in place — the caller's supplied entries would be overwritten and the wrong entries put back")
+	{
+		nsort := 0
+		for _, name := range []string{"fromMultihash", "fromEntryHash", "fromJSON", "fromEntry"} {
+			fn := p.FuncI("", "", name)
+			sf := p.SSAFunc(fn)
+			allInstrs(sf, true, func(ins ssa.Instruction) {
+				call, ok := ins.(*ssa.Call)
+				if !ok {
+					return
+				}
+				cal := calleeOf(call)
+				if cal == nil || cal.Name() != "Sort" || cal.Pkg() == nil || !strings.HasSuffix(cal.Pkg().Path(), "/sorting") || len(call.Call.Args) < 2 {
+					return
+				}
+				nsort++
+				par := mayAliasParam(call.Call.Args[1], sf)
+				r.Check(par == "", "R-C10.9", r.Key("R-C10.9", fn, "sort-owned", ""), call.Pos(), "the sorted list is a fresh slice",
+					"the list sorted in place may share its backing array with the caller's "+par+" (it was built by appending to it): with spare capacity in the caller's slice the sort moves other entries into the caller's elements, and the step that puts the supplied entries back restores the wrong ones")
+			})
+		}
+		r.Floor("R-C10.9", "in-place sorts in the loaders", nsort, 3)
+	}
 	fetch := p.FuncI("entry", "Fetcher", "Fetch")
 	ff := &Flow{P: p, Fn: fetch, Entry: Facts{}}
 	ff.Node = func(n ast.Node, f Facts) {
@@ -348,4 +371,49 @@ func suffixOnly(p *Prog, fn *ssa.Function, idx int, depth int) (bool, string) {
 		}
 	}
 	return true, ""
+}
+
+// mayAliasParam: the slice value may share its backing array with a slice parameter of sf: it is the parameter,
+// a re-slice of it, or the result of appending to it (append reuses spare capacity). Returns the parameter name.
+func mayAliasParam(v ssa.Value, sf *ssa.Function) string {
+	seen := map[ssa.Value]bool{}
+	var walk func(x ssa.Value) string
+	walk = func(x ssa.Value) string {
+		if x == nil || seen[x] {
+			return ""
+		}
+		seen[x] = true
+		switch y := x.(type) {
+		case *ssa.Parameter:
+			if _, isSlice := y.Type().Underlying().(*types.Slice); isSlice && y.Parent() == sf {
+				return "parameter " + y.Name()
+			}
+		case *ssa.Slice:
+			return walk(y.X)
+		case *ssa.ChangeType:
+			return walk(y.X)
+		case *ssa.Phi:
+			for _, e := range y.Edges {
+				if w := walk(e); w != "" {
+					return w
+				}
+			}
+		case *ssa.Call:
+			if b, ok := y.Call.Value.(*ssa.Builtin); ok && b.Name() == "append" && len(y.Call.Args) > 0 {
+				return walk(y.Call.Args[0])
+			}
+		case *ssa.UnOp:
+			if y.Op == token.MUL {
+				if a, ok := y.X.(*ssa.Alloc); ok {
+					for _, st := range cellStores(a) {
+						if w := walk(st.Val); w != "" {
+							return w
+						}
+					}
+				}
+			}
+		}
+		return ""
+	}
+	return walk(v)
 }
